@@ -463,6 +463,35 @@ def gen_default_eps_case(rng, dtype):
     return c
 
 
+def gen_congruent_int_case(rng):
+    """integer arrays of different width whose only difference is an entry that coincides with the other side's entry modulo
+    the range of the narrower type (259 against 3 for int8): different integers, whatever a cast to the narrow type would say"""
+    narrow = rng.choice(["int8", "uint8", "int16", "uint16", "int32", "uint32"])
+    wn, sn = INT_DT[narrow]
+    wide = rng.choice([d for d, (w, s_) in INT_DT.items() if w > wn])
+    ww, sw = INT_DT[wide]
+    shape = shape_choices(rng)
+    size = int(np.prod(shape))
+    if size == 0:
+        shape, size = [3], 3
+    lo, hi = (-(2 ** (wn - 1)), 2 ** (wn - 1) - 1) if sn else (0, 2 ** wn - 1)
+    wlo, whi = (-(2 ** (ww - 1)), 2 ** (ww - 1) - 1) if sw else (0, 2 ** ww - 1)
+    vals = [rng.randint(max(lo, 0), hi) for _ in range(size)]        # non-negative: representable in every wide type
+    j = rng.choice([0, size - 1, rng.randrange(size)])
+    k = rng.choice([1, 1, 2, 3])
+    wv = list(vals)
+    wv[j] = vals[j] + k * 2 ** wn
+    if not wlo <= wv[j] <= whi:
+        wv[j] = vals[j] + 2 ** wn
+    A = {"dtype": wide, "shape": shape, "vals": wv}
+    B = {"dtype": narrow, "shape": shape, "vals": vals}
+    if rng.random() < 0.5:
+        A, B = B, A
+    tol = rng.choice([["default"], ["num", Fr(0)], ["num", Fr(1, 1024)], ["num", Fr(1000)]])
+    return {"pred": rng.choice(["default", "default", "exact"]), "a": A, "b": B, "rel": tol, "abs": rng.choice([["default"], ["num", Fr(0)], ["num", Fr(1)]]),
+            "meta": {"mode": "congruent_modulo_narrow_type", "place": "first" if j == 0 else "last" if j == size - 1 else "inner"}}
+
+
 def gen_c09_case(rng):
     kinds = list(INT_DT) + ["str", "str"]
     dta = rng.choice(kinds)
@@ -838,6 +867,7 @@ def run_c01(ctx):
                           "b": {"dtype": "float64", "shape": [n], "vals": b},
                           "rel": ["num", Fr(0)], "abs": ["num", Fr(1, 4)], "meta": {"mode": "large", "place": "out", "j": j}})
     run_exact_stream(ctx, cases, "exact")
+    long_array_stream(ctx, "c01", ["float"], 30 if ctx.tier == "quick" else 1000)
     run_float_stream(ctx, n_float)
     ctx.rule = ("exact stream: dyadic inputs on which every floating-point operation of the implementation is exact "
                 "(checked per case), one deviating entry placed on/inside/outside the boundary of the applicable "
@@ -859,12 +889,71 @@ def run_c09(ctx):
             cases.append({"pred": "default", "a": {"dtype": dt, "shape": [2], "vals": [0, k]},
                           "b": {"dtype": dt, "shape": [2], "vals": [0, k + 1]},
                           "rel": ["num", tol], "abs": ["num", tol], "meta": {"mode": "c09_edges"}})
+    cases += gen_exact_cases(rng, 150 if q else 4000, lambda: gen_congruent_int_case(rng))
     run_exact_stream(ctx, cases, "c09")
     shared_predicate_stream(ctx, cases, "c09")
+    long_array_stream(ctx, "c09", ["int64", "int32", "uint8", "str"], 40 if q else 1500)
     mesh_integer_stream(ctx, 150 if q else 4000)
     ctx.rule = ("integer (8 dtypes, extremes), string and int/float-mixed arrays, shapes as C01, a differing entry at "
                 "first/last/random position, tolerances in {default, 0, 2^-10, 1, 1000, 2^900, 1024*max}; "
                 "non-trivial = arrays differ in a value, a dtype or shape")
+
+
+def long_array_stream(ctx, label, kinds, n):
+    """long arrays (a few thousand to 10^5 entries, lengths around powers of two) with at most ONE deviating entry, placed at
+    the last index, just behind a multiple of a power of two, or at random: the verdict is 'equal' iff there is no deviation.
+    The implementation is compared with the statement only (arrays of this length are not evaluated in the model)."""
+    from fieldcompare import predicates as P
+    rng = ctx.rng
+    lengths = [1000, 4097, 8191, 16385, 20000, 32769, 40001, 65537, 100003]
+    for it in range(n):
+        kind = rng.choice(kinds)
+        L = rng.choice(lengths)
+        comps = rng.choice([None, None, 3])
+        shape = (L,) if comps is None else (L // comps, comps)
+        size = int(np.prod(shape))
+        if kind == "float":
+            a = (np.arange(size, dtype=float) % 977) * 0.25 + 1.0
+        elif kind == "str":
+            a = np.array([f"s{i % 131}" for i in range(size)])
+        else:
+            a = (np.arange(size, dtype=kind) % 113).astype(kind)
+        a = a.reshape(shape)
+        b = a.copy()
+        flat = b.reshape(-1)
+        where = rng.choice(["none", "last", "behind block", "random", "first"])
+        j = None
+        if where != "none":
+            blk = rng.choice([1024, 4096, 8192, 16384, 32768, 65536])
+            j = {"last": size - 1, "first": 0, "random": rng.randrange(size),
+                 "behind block": min(size - 1, blk * (size // blk) + rng.randrange(0, max(1, size - blk * (size // blk))))}[where]
+            if kind == "str":
+                flat[j] = "zz"
+            elif kind == "float":
+                flat[j] = flat[j] + 0.5
+            else:
+                flat[j] = flat[j] + 1
+        predname = rng.choice(["default", "exact"] if kind != "float" else ["default", "fuzzy"])
+        tol = rng.choice([None, 1e-6, 1e-3]) if kind == "float" else rng.choice([None, 10.0, 1e6])
+        kw = {} if tol is None or predname == "exact" else {"rel_tol": tol, "abs_tol": tol if kind != "float" else 0.0}
+        pred = {"default": P.DefaultEquality, "fuzzy": P.FuzzyEquality, "exact": P.ExactEquality}[predname](**kw)
+        canon = {"long_array": {"kind": kind, "shape": list(shape), "deviation_at": j, "where": where, "pred": predname, "tol": tol}}
+        res = {}
+        for nm, x, y in (("ab", a, b), ("ba", b, a)):
+            try:
+                res[nm] = bool(pred(with_memory_layout(x), y))
+            except Exception as e:  # noqa: BLE001
+                res[nm] = f"raised {type(e).__name__}: {e}"
+        ctx.case(canon, where != "none", sample={"case": canon, "impl": res})
+        ctx.count(f"{label}:long array:{kind}:{where}")
+        ctx.tie("T2 long arrays: implementation = statement")
+        want = where == "none"
+        for nm in ("ab", "ba"):
+            if res[nm] is not want:
+                ctx.violation("E4", f"{label}: long array ({size} entries, deviation {where} at {j}): verdict {res[nm]}, the statement "
+                                    f"requires {want}", canon, impl=res)
+                break
+        ctx.traces_validated += 1
 
 
 def shared_predicate_stream(ctx, cases, label):
@@ -1014,6 +1103,7 @@ def run_c10(ctx):
     base += gen_exact_cases(rng, n // 3, lambda: gen_c09_case(rng))
     # integer arrays given directly to FuzzyEquality / DefaultEquality with non-negative tolerances
     base += gen_exact_cases(rng, n // 3, lambda: gen_int_fuzzy_case(rng))
+    base += gen_exact_cases(rng, n // 6, lambda: gen_congruent_int_case(rng))
     cases, groups = [], []
     for c in base:
         variants = {}
